@@ -116,6 +116,9 @@ func (g *G) quote() Notation {
 	return NSQ
 }
 
+// syntaxKeys are member names that read like pieces of the path syntax.
+var syntaxKeys = []string{"*", "*", "*", "@", "$", "..", "0", "a"}
+
 var smallInts = []int{0, 0, 1, 1, 2, 3, -1, -1, -2, -3, 4, 5, 7, -7, 8, 10, 12, -10}
 var bigInts = []int{math.MaxInt64, math.MinInt64, math.MaxInt64 - 1, math.MinInt64 + 1, 1 << 31, -(1 << 31), 1<<31 - 1, 1 << 32, 1 << 62, -(1 << 62)}
 
@@ -207,6 +210,14 @@ func (g *G) Step(filterDepth int, group bool, first bool) Step {
 	case KMulti:
 		n := 2 + g.intn("nent", 3)
 		allWild := g.chance("allwild", 12)
+		if !allWild && g.chance("tokennames", 6) {
+			// every entry a quoted name that reads like a piece of syntax (repeats welcome): '*' is a
+			// member name here, not a wildcard
+			for i := 0; i < n; i++ {
+				s.Ent = append(s.Ent, MultiEntry{Key: syntaxKeys[g.intn("tokenkey", len(syntaxKeys))], Q: g.quote()})
+			}
+			break
+		}
 		for i := 0; i < n; i++ {
 			if allWild || g.chance("entwild", 15) {
 				s.Ent = append(s.Ent, MultiEntry{Wild: true})
